@@ -297,9 +297,11 @@ type pDKGStore struct {
 }
 
 func (s *pDKGStore) SaveCurrent(id string, st *dkg.DBState) error {
+	s.n.e.onDKGSave(s.n, false, st)
 	return s.n.persist("dkg.SaveCurrent", "", func() error { return s.Store.SaveCurrent(id, st) })
 }
 func (s *pDKGStore) SaveFinished(id string, st *dkg.DBState) error {
+	s.n.e.onDKGSave(s.n, true, st)
 	return s.n.persist("dkg.SaveFinished", "", func() error { return s.Store.SaveFinished(id, st) })
 }
 
